@@ -1574,3 +1574,376 @@ Proof.
     replace (2 + len body + 1) with (3 + len body) by lia. replace (2 + len body - 2) with (len body) by lia.
     eexists. split; [reflexivity|]. cbn [ltext lz intag rawtag lerr lbuf skip mv]. repeat split.
 Qed.
+
+(* ---- constructs cut by the end of input --------------------------------------------------------------------------------- *)
+Lemma reads_brk_eof z s : reads z s -> pkr (mv z (len s)) 0 = Ok 0 /\ eof0 (mv z (len s)) 0 = true.
+Proof.
+  intros Hr. split; [|apply (reads_eof0_end z s Hr)]. rewrite pkr_mv0. destruct (reads_end z s Hr) as [Hp _]. unfold pkr. rewrite Hp. reflexivity.
+Qed.
+
+Lemma comment_loop_eof z body : reads z body -> no_term [[45; 45; 62]; [45; 45; 33; 62]] body [] ->
+  loop (fuel_of z) comment_body z = Ok (mv z (len body), 0).
+Proof.
+  intros Hr Hclean. pose proof (len_nonneg body). rewrite app_nil_r in Hclean || unfold no_term in Hclean.
+  apply (loop_scan _ z (len body)); [lia| | |eapply fuel_of_enough; [exact Hr|lia]].
+  - intros i Hi. destruct (peekz_in body i Hi) as (c & Hc & _).
+    unfold comment_body. rewrite pkr_mv0, (reads_pkr z _ i c Hr Hc). cbn [rbind].
+    rewrite (reads_eof0_in z _ i c Hr Hc).
+    rewrite (reads_at z _ i [45; 45; 62] Hr) by (repeat constructor; lia || lia).
+    pose proof (Hclean i Hi [45; 45; 62] ltac:(left; reflexivity)) as P1. rewrite app_nil_r in P1. rewrite P1. cbn [rbind].
+    rewrite (reads_at z _ i [45; 45; 33; 62] Hr) by (repeat constructor; lia || lia).
+    pose proof (Hclean i Hi [45; 45; 33; 62] ltac:(right; left; reflexivity)) as P2. rewrite app_nil_r in P2. rewrite P2. cbn [rbind].
+    rewrite mv_mv. reflexivity.
+  - destruct (reads_brk_eof z body Hr) as [Hp He]. unfold comment_body. rewrite Hp. cbn [rbind]. rewrite He. reflexivity.
+Qed.
+
+Lemma cdata_loop_eof z body : reads z body -> no_term [[93; 93; 62]] body [] ->
+  loop (fuel_of z) cdata_body z = Ok (mv z (len body), 0).
+Proof.
+  intros Hr Hclean. pose proof (len_nonneg body).
+  apply (loop_scan _ z (len body)); [lia| | |eapply fuel_of_enough; [exact Hr|lia]].
+  - intros i Hi. destruct (peekz_in body i Hi) as (c & Hc & _).
+    unfold cdata_body. rewrite pkr_mv0, (reads_pkr z _ i c Hr Hc). cbn [rbind].
+    rewrite (reads_eof0_in z _ i c Hr Hc).
+    rewrite (reads_at z _ i [93; 93; 62] Hr) by (repeat constructor; lia || lia).
+    pose proof (Hclean i Hi [93; 93; 62] ltac:(left; reflexivity)) as P1. rewrite app_nil_r in P1. rewrite P1. cbn [rbind].
+    rewrite mv_mv. reflexivity.
+  - destruct (reads_brk_eof z body Hr) as [Hp He]. unfold cdata_body. rewrite Hp. cbn [rbind]. rewrite He. reflexivity.
+Qed.
+
+(* scanning loops "'>' -> (z,1); end of input -> (z,0); else next byte" *)
+Lemma gt_loop_eof (body : lx -> res (lp lx (lx * Z))) z bs :
+  (forall zz, body zz = (c <-- pkr zz 0 ;; if c =? 62 then Ok (Brk (zz, 1)) else if eof0 zz c then Ok (Brk (zz, 0)) else Ok (Cont (mv zz 1)))) ->
+  reads z bs -> Forall (fun c => c <> 62) bs -> loop (fuel_of z) body z = Ok (mv z (len bs), 0).
+Proof.
+  intros Hbody Hr Hb. pose proof (len_nonneg bs).
+  apply (loop_scan _ z (len bs)); [lia| | |eapply fuel_of_enough; [exact Hr|lia]].
+  - intros i Hi. destruct (peekz_in bs i Hi) as (c & Hc & Hin). rewrite Forall_forall in Hb. specialize (Hb c Hin).
+    rewrite Hbody, pkr_mv0, (reads_pkr z _ i c Hr Hc). cbn [rbind].
+    replace (c =? 62) with false by (symmetry; apply Z.eqb_neq; exact Hb).
+    rewrite (reads_eof0_in z _ i c Hr Hc). rewrite mv_mv. reflexivity.
+  - destruct (reads_brk_eof z bs Hr) as [Hp He]. rewrite Hbody, Hp. cbn [rbind Z.eqb]. rewrite He. reflexivity.
+Qed.
+
+Lemma bogus_loop_eof z bs : reads z bs -> Forall (fun c => c <> 62) bs -> loop (fuel_of z) bogus_body z = Ok (mv z (len bs), 0).
+Proof. apply gt_loop_eof. intros zz. reflexivity. Qed.
+
+Lemma endtag_loop_eof z bs : reads z bs -> Forall (fun c => c <> 62) bs -> loop (fuel_of z) endtag_body z = Ok (mv z (len bs), 0).
+Proof. apply gt_loop_eof. intros zz. reflexivity. Qed.
+
+Lemma doctype_loop_eof z bs : reads z bs -> Forall (fun c => c <> 62) bs -> loop (fuel_of z) doctype_body z = Ok (mv z (len bs), 0).
+Proof.
+  intros Hr Hb. pose proof (len_nonneg bs).
+  apply (loop_scan _ z (len bs)); [lia| | |eapply fuel_of_enough; [exact Hr|lia]].
+  - intros i Hi. destruct (peekz_in bs i Hi) as (c & Hc & Hin). rewrite Forall_forall in Hb. specialize (Hb c Hin).
+    unfold doctype_body. rewrite pkr_mv0, (reads_pkr z _ i c Hr Hc). cbn [rbind].
+    replace (c =? 62) with false by (symmetry; apply Z.eqb_neq; exact Hb). cbn [orb].
+    rewrite (reads_eof0_in z _ i c Hr Hc). rewrite mv_mv. reflexivity.
+  - destruct (reads_brk_eof z bs Hr) as [Hp He]. unfold doctype_body. rewrite Hp. cbn [rbind Z.eqb orb]. rewrite He. reflexivity.
+Qed.
+
+(* "<!--" body : one Comment token to the end of input *)
+Lemma next_comment_cut d l pre body :
+  at_input d l pre (60 :: 33 :: 45 :: 45 :: body) -> intag l = false -> rawtag l = 0 ->
+  no_term [[45; 45; 62]; [45; 45; 33; 62]] body [] ->
+  exists l', next no_tmpl l = Ok (CommentT, Some (mkSl (len pre) (4 + len body)), l') /\
+    ltext l' = Some (mkSl (len pre + 4) (len body)) /\ lbuf (lz l') = lbuf (lz l) /\
+    intag l' = false /\ rawtag l' = 0 /\ lerr l' = lerr l.
+Proof.
+  intros Hat Hit Hraw Hclean. pose proof (at_input_reads _ _ _ _ Hat) as Hr.
+  destruct Hat as (Hi & Hcl & Hd & Hp). pose proof (len_nonneg body).
+  assert (Hlen : len (60 :: 33 :: 45 :: 45 :: body) = 4 + len body) by (rewrite !len_cons; lia).
+  unfold next. cbn [lz rawtag intag lerr ltext lattr lhas]. rewrite Hit, Hraw. cbn [Z.eqb negb].
+  unfold next_content. cbn [lz rawtag intag lerr ltext lattr lhas].
+  destruct (text_loop_dispatch (lz l) 33 _ Hr Hcl) as [Hdisp|Hno]; [|exfalso; apply Hno; tauto].
+  change (if is_letter 33 then DStartTag else if 33 =? 33 then DMarkup else if 33 =? 63 then DBogusQ else DEndTag) with DMarkup in Hdisp.
+  rewrite Hdisp. cbn [rbind]. unfold read_markup.
+  rewrite (reads_at (lz l) _ 2 [45; 45] Hr) by (repeat constructor; lia || lia).
+  change (prefixb [45; 45] (skipz 2 (60 :: 33 :: 45 :: 45 :: body))) with true. cbn [rbind].
+  pose proof (reads_mv _ _ 4 Hr ltac:(lia)) as Hr4.
+  change (skipz 4 (60 :: 33 :: 45 :: 45 :: body)) with body in Hr4.
+  rewrite (mv_mv (lz l) 2 2). change (2 + 2) with 4.
+  rewrite (loop_fuel_mono _ _ (fuel_of (mv (lz l) 2)) _ _ (comment_loop_eof _ body Hr4 Hclean))
+    by (unfold fuel_of; cbn [mv lbuf lpos]; lia).
+  cbn [rbind fst snd]. rewrite mv_0.
+  destruct Hr4 as [Hw4 Hrem4].
+  destruct (rem_mv _ (len body) Hw4) as [_ Hw5]; [rewrite Hrem4; lia|].
+  rewrite lexeme_from_spec by (exact Hw5 || (cbn [mv lpos lstart]; lia)). cbn [rbind].
+  rewrite shiftv_spec by exact Hw5. cbn [rbind fst snd mv lstart lpos so sn]. rewrite Hcl, Hp.
+  replace (len pre + 4 + len body - len pre) with (4 + len body) by lia.
+  replace (4 + len body - 4) with (len body) by lia.
+  eexists. split; [reflexivity|]. cbn [ltext lz intag rawtag lerr lbuf skip mv]. repeat split.
+Qed.
+
+(* "<![CDATA[" body : one Text token to the end of input *)
+Lemma next_cdata_cut d l pre body :
+  at_input d l pre (60 :: 33 :: 91 :: 67 :: 68 :: 65 :: 84 :: 65 :: 91 :: body) -> intag l = false -> rawtag l = 0 ->
+  no_term [[93; 93; 62]] body [] ->
+  exists l', next no_tmpl l = Ok (TextT, Some (mkSl (len pre) (9 + len body)), l') /\
+    ltext l' = Some (mkSl (len pre + 9) (len body)) /\ lbuf (lz l') = lbuf (lz l) /\
+    intag l' = false /\ rawtag l' = 0 /\ lerr l' = lerr l.
+Proof.
+  intros Hat Hit Hraw Hclean. pose proof (at_input_reads _ _ _ _ Hat) as Hr.
+  destruct Hat as (Hi & Hcl & Hd & Hp). pose proof (len_nonneg body).
+  assert (Hlen : len (60 :: 33 :: 91 :: 67 :: 68 :: 65 :: 84 :: 65 :: 91 :: body) = 9 + len body) by (rewrite !len_cons; lia).
+  unfold next. cbn [lz rawtag intag lerr ltext lattr lhas]. rewrite Hit, Hraw. cbn [Z.eqb negb].
+  unfold next_content. cbn [lz rawtag intag lerr ltext lattr lhas].
+  destruct (text_loop_dispatch (lz l) 33 _ Hr Hcl) as [Hdisp|Hno]; [|exfalso; apply Hno; tauto].
+  change (if is_letter 33 then DStartTag else if 33 =? 33 then DMarkup else if 33 =? 63 then DBogusQ else DEndTag) with DMarkup in Hdisp.
+  rewrite Hdisp. cbn [rbind]. unfold read_markup.
+  rewrite (reads_at (lz l) _ 2 [45; 45] Hr) by (repeat constructor; lia || lia).
+  change (prefixb [45; 45] (skipz 2 (60 :: 33 :: 91 :: 67 :: 68 :: 65 :: 84 :: 65 :: 91 :: body))) with false. cbn [rbind].
+  rewrite (reads_at (lz l) _ 2 [91; 67; 68; 65; 84; 65; 91] Hr) by (repeat constructor; lia || lia).
+  change (prefixb [91; 67; 68; 65; 84; 65; 91] (skipz 2 (60 :: 33 :: 91 :: 67 :: 68 :: 65 :: 84 :: 65 :: 91 :: body))) with true. cbn [rbind].
+  pose proof (reads_mv _ _ 9 Hr ltac:(lia)) as Hr9.
+  change (skipz 9 (60 :: 33 :: 91 :: 67 :: 68 :: 65 :: 84 :: 65 :: 91 :: body)) with body in Hr9.
+  rewrite (mv_mv (lz l) 2 7). change (2 + 7) with 9.
+  rewrite (loop_fuel_mono _ _ (fuel_of (mv (lz l) 2)) _ _ (cdata_loop_eof _ body Hr9 Hclean))
+    by (unfold fuel_of; cbn [mv lbuf lpos]; lia).
+  cbn [rbind fst snd]. rewrite mv_0.
+  destruct Hr9 as [Hw9 Hrem9].
+  destruct (rem_mv _ (len body) Hw9) as [_ Hw5]; [rewrite Hrem9; lia|].
+  rewrite lexeme_from_spec by (exact Hw5 || (cbn [mv lpos lstart]; lia)). cbn [rbind].
+  rewrite shiftv_spec by exact Hw5. cbn [rbind fst snd mv lstart lpos so sn]. rewrite Hcl, Hp.
+  replace (len pre + 9 + len body - len pre) with (9 + len body) by lia.
+  replace (9 + len body - 9) with (len body) by lia.
+  eexists. split; [reflexivity|]. cbn [ltext lz intag rawtag lerr lbuf skip mv]. repeat split.
+Qed.
+
+(* "<!doctype" after : one Doctype token to the end of input *)
+Lemma next_doctype_cut d l pre x0 x1 x2 x3 x4 x5 x6 after :
+  let dt := [x0; x1; x2; x3; x4; x5; x6] in
+  at_input d l pre (60 :: 33 :: dt ++ after) -> intag l = false -> rawtag l = 0 ->
+  Forall2 ci_eq dt [100; 111; 99; 116; 121; 112; 101] -> Forall (fun c => c <> 62) after ->
+  exists l', next no_tmpl l = Ok (DoctypeT, Some (mkSl (len pre) (9 + len after)), l') /\
+    ltext l' = Some (mkSl (len pre + 9) (len after)) /\ lbuf (lz l') = lbuf (lz l) /\
+    intag l' = false /\ rawtag l' = 0 /\ lerr l' = lerr l.
+Proof.
+  intros dt Hat Hit Hraw Hdt Hafter. pose proof (at_input_reads _ _ _ _ Hat) as Hr.
+  destruct Hat as (Hi & Hcl & Hd & Hp). pose proof (len_nonneg after).
+  assert (Hdt7 : len dt = 7) by reflexivity.
+  assert (Hd0 : x0 = 100 \/ x0 = 68) by (inversion Hdt as [|? ? ? ? Hx _]; subst; destruct Hx; lia).
+  assert (Hlen : len (60 :: 33 :: dt ++ after) = 9 + len after) by (rewrite !len_cons, len_app; lia).
+  unfold next. cbn [lz rawtag intag lerr ltext lattr lhas]. rewrite Hit, Hraw. cbn [Z.eqb negb].
+  unfold next_content. cbn [lz rawtag intag lerr ltext lattr lhas].
+  destruct (text_loop_dispatch (lz l) 33 _ Hr Hcl) as [Hdisp|Hno]; [|exfalso; apply Hno; tauto].
+  change (if is_letter 33 then DStartTag else if 33 =? 33 then DMarkup else if 33 =? 63 then DBogusQ else DEndTag) with DMarkup in Hdisp.
+  rewrite Hdisp. cbn [rbind]. unfold read_markup.
+  pose proof (reads_mv _ _ 2 Hr ltac:(lia)) as Hr2.
+  change (skipz 2 (60 :: 33 :: dt ++ after)) with (dt ++ after) in Hr2.
+  assert (Hat1 : at_ (mv (lz l) 2) [45; 45] = Ok false).
+  { destruct Hr2 as [Hw2 Hrem2]. rewrite (at_rem (mv (lz l) 2) [45; 45] ltac:(repeat constructor; lia) Hw2). rewrite Hrem2. unfold dt. cbn [app prefixb].
+    destruct Hd0 as [-> | -> ]; reflexivity. }
+  assert (Hat2 : at_ (mv (lz l) 2) [91; 67; 68; 65; 84; 65; 91] = Ok false).
+  { destruct Hr2 as [Hw2 Hrem2]. rewrite (at_rem (mv (lz l) 2) [91; 67; 68; 65; 84; 65; 91] ltac:(repeat constructor; lia) Hw2). rewrite Hrem2. unfold dt. cbn [app prefixb].
+    destruct Hd0 as [-> | -> ]; reflexivity. }
+  rewrite Hat1. cbn [rbind]. rewrite Hat2. cbn [rbind].
+  rewrite (atci_from_reads _ _ Hr2 _ dt 0); [|lia|exact Hdt|repeat constructor; lia|].
+  2:{ unfold skipz, dt. cbn [Z.to_nat skipn app prefixb]. rewrite !Z.eqb_refl. reflexivity. }
+  cbn [rbind].
+  pose proof (reads_mv _ _ 7 Hr2 ltac:(rewrite len_app; lia)) as Hr9.
+  replace (skipz 7 (dt ++ after)) with after in Hr9 by reflexivity.
+  set (z7 := mv (mv (lz l) 2) 7) in *.
+  assert (Hloop : forall c0, pkr z7 0 = Ok c0 ->
+     loop (fuel_of (if c0 =? 32 then mv z7 1 else z7)) doctype_body (if c0 =? 32 then mv z7 1 else z7) = Ok (mv z7 (len after), 0)).
+  { intros c0 Hc0. destruct (c0 =? 32) eqn:E32; [|apply (doctype_loop_eof z7 after); assumption].
+    apply Z.eqb_eq in E32. subst c0. destruct after as [|a0 after'].
+    - destruct (reads_end z7 [] Hr9) as [Hp0 _]. change (len (@nil Z)) with 0 in Hp0. unfold pkr in Hc0. rewrite Hp0 in Hc0. discriminate.
+    - rewrite (reads_pkr z7 _ 0 a0 Hr9) in Hc0 by apply peekz_cons_0. injection Hc0 as ->.
+      pose proof (reads_mv _ _ 1 Hr9 ltac:(rewrite len_cons; pose proof (len_nonneg after'); lia)) as Hr10.
+      change (skipz 1 (32 :: after')) with after' in Hr10.
+      rewrite (doctype_loop_eof _ after' Hr10) by (inversion Hafter; assumption).
+      rewrite mv_mv, len_cons. reflexivity. }
+  destruct (pkr0 z7 (proj1 Hr9)) as (c0 & Hc0 & _). rewrite Hc0. cbn [rbind]. rewrite (Hloop c0 Hc0). cbn [rbind fst snd]. rewrite mv_0.
+  destruct Hr9 as [Hw9 Hrem9].
+  destruct (rem_mv _ (len after) Hw9) as [_ Hw5]; [rewrite Hrem9; lia|].
+  rewrite lexeme_from_spec by (exact Hw5 || (unfold z7; cbn [mv lpos lstart]; lia)). cbn [rbind].
+  rewrite shiftv_spec by exact Hw5. unfold z7. cbn [rbind fst snd mv lstart lpos so sn]. rewrite Hcl, Hp.
+  replace (len pre + 2 + 7 + len after - len pre) with (9 + len after) by lia.
+  replace (9 + len after - 9) with (len after) by lia.
+  eexists. split; [reflexivity|]. cbn [ltext lz intag rawtag lerr lbuf skip mv]. repeat split.
+Qed.
+
+(* bogus comments cut by the end of input *)
+Lemma shift_bogus_eof z k bs : lx_wf z -> lstart z = lpos z -> 0 <= k -> 2 <= k + len bs ->
+  reads (mv z k) bs -> Forall (fun c => c <> 62) bs ->
+  shift_bogus (mv z k) = Ok (mkSl (lpos z) (k + len bs), mkSl (lpos z + 2) (k + len bs - 2), skip (mv z (k + len bs))).
+Proof.
+  intros Hw Hcl Hk H2 Hr Hb. pose proof (len_nonneg bs).
+  unfold shift_bogus. rewrite (bogus_loop_eof _ bs Hr Hb). cbn [rbind fst snd]. rewrite mv_0.
+  destruct Hr as [Hwk Hrem].
+  destruct (rem_mv _ (len bs) Hwk) as [_ Hw1]; [rewrite Hrem; lia|].
+  rewrite lexeme_from_spec by (exact Hw1 || (cbn [mv lpos lstart]; lia)). cbn [rbind].
+  rewrite shiftv_spec by exact Hw1. cbn [rbind fst snd mv lstart lpos lbuf skip]. rewrite Hcl.
+  do 3 f_equal; [f_equal; lia|f_equal; lia|].
+  rewrite !mv_mv. reflexivity.
+Qed.
+
+Definition bogus_open_cut (c1 : Z) (body : list Z) : Prop :=
+  c1 = 63 \/
+  (c1 = 33 /\ prefixb [45; 45] body = false /\ prefixb [91; 67; 68; 65; 84; 65; 91] body = false /\
+     cipre [100; 111; 99; 116; 121; 112; 101] body = false) \/
+  (c1 = 47 /\ exists c2 r, body = c2 :: r /\ is_letter c2 = false).
+
+Lemma next_bogus_cut d l pre c1 body :
+  at_input d l pre (60 :: c1 :: body) -> intag l = false -> rawtag l = 0 ->
+  bogus_open_cut c1 body -> Forall (fun c => c <> 62) body ->
+  exists l', next no_tmpl l = Ok (CommentT, Some (mkSl (len pre) (2 + len body)), l') /\
+    ltext l' = Some (mkSl (len pre + 2) (len body)) /\ lbuf (lz l') = lbuf (lz l) /\
+    intag l' = false /\ rawtag l' = 0 /\ lerr l' = lerr l.
+Proof.
+  intros Hat Hit Hraw Hopen Hbody. pose proof (at_input_reads _ _ _ _ Hat) as Hr.
+  destruct Hat as (Hi & Hcl & Hd & Hp). pose proof Hi as ((Hw & _) & _).
+  pose proof (len_nonneg body).
+  assert (Hlen : len (60 :: c1 :: body) = 2 + len body) by (rewrite !len_cons; lia).
+  unfold next. cbn [lz rawtag intag lerr ltext lattr lhas]. rewrite Hit, Hraw. cbn [Z.eqb negb].
+  unfold next_content. cbn [lz rawtag intag lerr ltext lattr lhas].
+  pose proof (reads_mv _ _ 2 Hr ltac:(lia)) as Hr2.
+  change (skipz 2 (60 :: c1 :: body)) with body in Hr2.
+  destruct Hopen as [->|[(-> & Hnc & Hncd & Hnd)|(-> & c2 & r & Eb & Hnl)]].
+  - destruct (text_loop_dispatch (lz l) 63 _ Hr Hcl) as [Hdisp|Hno]; [|exfalso; apply Hno; tauto].
+    change (if is_letter 63 then DStartTag else if 63 =? 33 then DMarkup else if 63 =? 63 then DBogusQ else DEndTag) with DBogusQ in Hdisp.
+    rewrite Hdisp. cbn [rbind].
+    pose proof (reads_mv _ _ 1 Hr ltac:(lia)) as Hr1.
+    change (skipz 1 (60 :: 63 :: body)) with (63 :: body) in Hr1.
+    rewrite (shift_bogus_eof (lz l) 1 (63 :: body) Hw Hcl ltac:(lia) ltac:(rewrite len_cons; lia) Hr1)
+      by (constructor; [discriminate|exact Hbody]).
+    cbn [rbind fst snd]. rewrite len_cons, Hp.
+    replace (1 + (1 + len body)) with (2 + len body) by lia. replace (2 + len body - 2) with (len body) by lia.
+    eexists. split; [reflexivity|]. cbn [ltext lz intag rawtag lerr lbuf skip mv]. repeat split.
+  - destruct (text_loop_dispatch (lz l) 33 _ Hr Hcl) as [Hdisp|Hno]; [|exfalso; apply Hno; tauto].
+    change (if is_letter 33 then DStartTag else if 33 =? 33 then DMarkup else if 33 =? 63 then DBogusQ else DEndTag) with DMarkup in Hdisp.
+    rewrite Hdisp. cbn [rbind]. unfold read_markup.
+    rewrite (reads_at (lz l) _ 2 [45; 45] Hr) by (repeat constructor; lia || lia).
+    change (skipz 2 (60 :: 33 :: body)) with body. rewrite Hnc. cbn [rbind].
+    rewrite (reads_at (lz l) _ 2 [91; 67; 68; 65; 84; 65; 91] Hr) by (repeat constructor; lia || lia).
+    change (skipz 2 (60 :: 33 :: body)) with body. rewrite Hncd. cbn [rbind].
+    rewrite (atci_from_cipre _ _ Hr2) by (try lia; repeat constructor; lia).
+    change (skipz 0 body) with body. rewrite Hnd. cbn [rbind].
+    rewrite (shift_bogus_eof (lz l) 2 body Hw Hcl ltac:(lia) ltac:(lia) Hr2 Hbody). cbn [rbind fst snd]. rewrite Hp.
+    replace (2 + len body - 2) with (len body) by lia.
+    eexists. split; [reflexivity|]. cbn [ltext lz intag rawtag lerr lbuf skip mv]. repeat split.
+  - assert (Hc2 : c2 <> 62) by (subst body; inversion Hbody; assumption).
+    destruct (text_loop_dispatch (lz l) 47 _ Hr Hcl) as [Hdisp|Hno].
+    2:{ exfalso. apply Hno. right; right; right. split; [reflexivity|]. subst body. eexists _, _. split; [reflexivity|exact Hc2]. }
+    change (if is_letter 47 then DStartTag else if 47 =? 33 then DMarkup else if 47 =? 63 then DBogusQ else DEndTag) with DEndTag in Hdisp.
+    rewrite Hdisp. cbn [rbind].
+    rewrite (reads_pkr _ _ 0 c2 Hr2) by (subst body; apply peekz_cons_0). cbn [rbind]. rewrite Hnl. cbn [negb].
+    rewrite (shift_bogus_eof (lz l) 2 body Hw Hcl ltac:(lia) ltac:(lia) Hr2 Hbody). cbn [rbind fst snd]. rewrite Hp.
+    replace (2 + len body - 2) with (len body) by lia.
+    eexists. split; [reflexivity|]. cbn [ltext lz intag rawtag lerr lbuf skip mv]. repeat split.
+Qed.
+
+(* "</" name ws cut by the end of input: one EndTag token *)
+Lemma next_endtag_cut d l pre name ws :
+  at_input d l pre (60 :: 47 :: name ++ ws) -> intag l = false -> rawtag l = 0 ->
+  (exists c nm, name = c :: nm /\ is_letter c = true) -> Forall (fun c => is_tagend c = false) name ->
+  Forall (fun c => is_ws c = true) ws ->
+  exists l', next no_tmpl l = Ok (EndTagT, Some (mkSl (len pre) (2 + len name + len ws)), l') /\
+    ltext l' = Some (mkSl (len pre + 2) (len name)) /\
+    lbuf (lz l') = lower_view (lbuf (lz l)) (mkSl (len pre + 2) (len name)) /\
+    intag l' = false /\ rawtag l' = 0 /\ lerr l' = lerr l.
+Proof.
+  intros Hat Hit Hraw (c & nm & Ename & Hlet) Hname Hws. pose proof (at_input_reads _ _ _ _ Hat) as Hr.
+  destruct Hat as (Hi & Hcl & Hd & Hp).
+  assert (Hno62 : Forall (fun c => c <> 62) (name ++ ws)).
+  { apply Forall_app. split; [eapply Forall_impl; [|exact Hname]; cbn beta; intros a Ha; apply tagend_false in Ha; tauto|].
+    eapply Forall_impl; [|exact Hws]. cbn. intros a Ha ->. discriminate. }
+  unfold next. cbn [lz rawtag intag lerr ltext lattr lhas]. rewrite Hit, Hraw. cbn [Z.eqb negb].
+  unfold next_content. cbn [lz rawtag intag lerr ltext lattr lhas].
+  destruct (text_loop_dispatch (lz l) 47 (name ++ ws) Hr Hcl) as [Hdisp|Hno].
+  2:{ exfalso. apply Hno. right; right; right. split; [reflexivity|]. subst name. cbn [app]. eexists _, _. split; [reflexivity|].
+      intros ->. discriminate. }
+  change (if is_letter 47 then DStartTag else if 47 =? 33 then DMarkup else if 47 =? 63 then DBogusQ else DEndTag) with DEndTag in Hdisp.
+  rewrite Hdisp. cbn [rbind].
+  pose proof (len_nonneg name). pose proof (len_nonneg ws). pose proof (len_nonneg (name ++ ws)).
+  assert (Hlenall : len (60 :: 47 :: name ++ ws) = 2 + len name + len ws) by (rewrite !len_cons, len_app; lia).
+  pose proof (reads_mv _ _ 2 Hr ltac:(lia)) as Hr2.
+  change (skipz 2 (60 :: 47 :: name ++ ws)) with (name ++ ws) in Hr2.
+  rewrite (reads_pkr _ _ 0 c Hr2) by (subst name; apply peekz_cons_0). cbn [rbind]. rewrite Hlet. cbn [negb].
+  unfold shift_endtag.
+  rewrite (endtag_loop_eof _ (name ++ ws) Hr2 Hno62). cbn [rbind fst snd]. rewrite mv_0.
+  destruct Hr2 as [Hw2 Hrem2].
+  destruct (rem_mv _ (len (name ++ ws)) Hw2) as [_ Hw3]; [rewrite Hrem2; lia|].
+  rewrite lexeme_from_spec by (exact Hw3 || (cbn [mv lpos lstart]; lia)). cbn [rbind].
+  rewrite shiftv_spec by exact Hw3. cbn [rbind fst snd mv lstart lpos so sn lbuf].
+  assert (Htrim : trim_end_len (view_bytes (lbuf (lz l)) (mkSl (lstart (lz l) + 2) (lpos (lz l) + 2 + len (name ++ ws) - lstart (lz l) - 2))) = len name).
+  { unfold view_bytes. cbn [so sn]. rewrite Hcl.
+    replace (lpos (lz l) + 2 + (lpos (lz l) + 2 + len (name ++ ws) - lpos (lz l) - 2)) with (lpos (lz l) + (2 + len (name ++ ws))) by lia.
+    rewrite (reads_slice (lz l) _ 2 (2 + len (name ++ ws)) Hr) by (rewrite ?len_app in *; lia).
+    assert (Hs : slice (60 :: 47 :: name ++ ws) 2 (2 + len (name ++ ws)) = name ++ ws).
+    { pose proof (slice_mid' [60; 47] (name ++ ws) []) as E. rewrite app_nil_r in E. exact E. }
+    rewrite Hs. apply trim_end_len_app; [exact Hws|]. eapply Forall_impl; [|exact Hname]. cbn beta. intros a Ha. apply tagend_false in Ha. tauto. }
+  rewrite Htrim.
+  assert (Hname_run : name_run (skipz 2 (view_bytes (lbuf (lz l)) (mkSl (lstart (lz l)) (lpos (lz l) + 2 + len (name ++ ws) - lstart (lz l))))) = len name).
+  { unfold view_bytes. cbn [so sn]. rewrite Hcl.
+    replace (lpos (lz l) + (lpos (lz l) + 2 + len (name ++ ws) - lpos (lz l))) with (lpos (lz l) + (2 + len (name ++ ws))) by lia.
+    pose proof (reads_slice (lz l) _ 0 (2 + len (name ++ ws)) Hr ltac:(lia) ltac:(rewrite ?len_app in *; lia)) as Hsl.
+    rewrite Z.add_0_r in Hsl. rewrite Hsl.
+    assert (Hs : slice (60 :: 47 :: name ++ ws) 0 (2 + len (name ++ ws)) = 60 :: 47 :: name ++ ws).
+    { replace (2 + len (name ++ ws)) with (len (60 :: 47 :: name ++ ws)) by (rewrite !len_cons; lia).
+      pose proof (slice_app_first (60 :: 47 :: name ++ ws) []) as E. rewrite app_nil_r in E. exact E. }
+    rewrite Hs. change (skipz 2 (60 :: 47 :: name ++ ws)) with (name ++ ws).
+    apply name_run_app; [exact Hname|]. destruct ws as [|w ws']; [left; reflexivity|right].
+    exists w, ws'. split; [reflexivity|]. apply is_tagend_ws. inversion Hws; assumption. }
+  rewrite Hname_run. rewrite len_app. rewrite Hcl, Hp.
+  replace (len pre + 2 + (len name + len ws) - len pre) with (2 + len name + len ws) by lia.
+  replace (2 <=? 2 + len name + len ws) with true by (symmetry; apply Z.leb_le; lia).
+  eexists. split; [reflexivity|].
+  cbn [ltext lz intag rawtag lerr lx_lower lbuf skip mv]. repeat split.
+Qed.
+
+(* text that ends with '<' or "</" at the end of input: the '<' opens nothing and belongs to the text *)
+Lemma text_loop_text_lt z t tl : reads z (t ++ tl) -> lstart z = lpos z -> Forall (fun c => c <> 60) t ->
+  (tl = [60] \/ tl = [60; 47]) ->
+  loop (fuel_of z) (text_body no_tmpl) z = Ok (mv z (len t + len tl), DText).
+Proof.
+  intros Hr Hcl Ht Htl. pose proof (len_nonneg t) as Hlt. pose proof (len_nonneg tl).
+  assert (Htl1 : 1 <= len tl <= 2) by (destruct Htl as [-> | ->]; cbn; lia).
+  assert (Hall : len (t ++ tl) = len t + len tl) by apply len_app.
+  apply (loop_scan _ z (len t + len tl)); [lia| | |eapply fuel_of_enough; [exact Hr|lia]].
+  - intros i Hi. unfold text_body. rewrite pkr_mv0.
+    destruct (Z.lt_ge_cases i (len t)) as [Hlo|Hhi].
+    + destruct (peekz_in t i ltac:(lia)) as (c & Hc & Hin). rewrite Forall_forall in Ht. specialize (Ht c Hin).
+      rewrite (reads_pkr z _ i c Hr (peekz_app_l' _ _ _ _ Hc)). cbn [rbind]. rewrite tmpl_at_none. cbn [rbind].
+      replace (c =? 60) with false by (symmetry; apply Z.eqb_neq; exact Ht).
+      rewrite (reads_eof0_in z _ i c Hr (peekz_app_l' _ _ _ _ Hc)). rewrite mv_mv. reflexivity.
+    + destruct (Z.eq_dec i (len t)) as [->|Hne].
+      * (* the '<' *)
+        rewrite (reads_pkr z _ (len t) 60 Hr) by (rewrite peekz_app_r0; destruct Htl as [-> | ->]; apply peekz_cons_0).
+        cbn [rbind]. rewrite tmpl_at_none. cbn [rbind Z.eqb Pos.eqb]. rewrite pkr_mv.
+        destruct Htl as [-> | ->].
+        -- change (len [60]) with 1 in *. destruct (reads_end z _ Hr) as [Hpe _]. rewrite Hall in Hpe. change (len [60]) with 1 in Hpe.
+           unfold pkr. rewrite Hpe. cbn [opt_res rbind Z.eqb]. cbn. rewrite mv_mv. reflexivity.
+        -- rewrite (reads_pkr z _ (len t + 1) 47 Hr) by (rewrite peekz_app_rk by lia; apply peekz_1). cbn [rbind Z.eqb Pos.eqb].
+           rewrite pkr_mv. change (len [60; 47]) with 2 in *. destruct (reads_end z _ Hr) as [Hpe Hend]. rewrite Hall in Hpe, Hend. change (len [60; 47]) with 2 in Hpe, Hend.
+           unfold pkr. rewrite Hpe. cbn [opt_res rbind Z.eqb negb andb orb].
+           assert (Hae : at_end_i (mv z (len t)) 2 = true) by (unfold at_end_i; apply Z.leb_le; cbn [mv lpos lbuf]; unfold lx_len in *; cbn [mv lbuf]; lia).
+           rewrite Hae. cbn. rewrite mv_mv. reflexivity.
+      * (* the '/' of "</" *)
+        destruct Htl as [-> | ->]; [change (len [60]) with 1 in *; lia|]. change (len [60; 47]) with 2 in *.
+        assert (i = len t + 1) by lia. subst i.
+        rewrite (reads_pkr z _ (len t + 1) 47 Hr) by (rewrite peekz_app_rk by lia; apply peekz_1). cbn [rbind]. rewrite tmpl_at_none. cbn [rbind Z.eqb Pos.eqb].
+        rewrite (reads_eof0_in z _ (len t + 1) 47 Hr) by (rewrite peekz_app_rk by lia; apply peekz_1). rewrite mv_mv. reflexivity.
+  - assert (Hmark : (0 <? mark (mv z (len t + len tl))) = true) by (unfold mark; cbn [mv lpos lstart]; apply Z.ltb_lt; lia).
+    rewrite <- Hall. destruct (reads_brk_eof z _ Hr) as [Hpe He]. unfold text_body. rewrite Hpe. cbn [rbind]. rewrite tmpl_at_none. cbn [rbind Z.eqb].
+    rewrite He. rewrite Hall, Hmark. reflexivity.
+Qed.
+
+Lemma next_text_lt d l pre t tl : at_input d l pre (t ++ tl) -> intag l = false -> rawtag l = 0 ->
+  Forall (fun c => c <> 60) t -> (tl = [60] \/ tl = [60; 47]) ->
+  exists l', next no_tmpl l = Ok (TextT, Some (mkSl (len pre) (len t + len tl)), l') /\
+    ltext l' = Some (mkSl (len pre) (len t + len tl)) /\ lbuf (lz l') = lbuf (lz l) /\
+    intag l' = false /\ rawtag l' = 0 /\ lerr l' = lerr l.
+Proof.
+  intros Hat Hit Hraw Ht Htl. pose proof (at_input_reads _ _ _ _ Hat) as Hr.
+  destruct Hat as (Hi & Hcl & Hd & Hp).
+  unfold next. cbn [lz rawtag intag lerr ltext lattr lhas]. rewrite Hit, Hraw. cbn [Z.eqb negb].
+  unfold next_content. cbn [lz rawtag intag lerr ltext lattr lhas].
+  rewrite (text_loop_text_lt _ t tl Hr Hcl Ht Htl). cbn [rbind].
+  pose proof (len_nonneg t). pose proof (len_nonneg tl).
+  destruct (reads_mv _ _ (len t + len tl) Hr) as [Hw2 _]; [rewrite len_app; lia|].
+  rewrite shiftv_spec by exact Hw2. cbn [rbind fst snd mv lstart lpos].
+  rewrite Hcl, Hp. replace (len pre + (len t + len tl) - len pre) with (len t + len tl) by lia.
+  eexists. split; [reflexivity|]. cbn [ltext lz intag rawtag lerr skip lbuf mv]. repeat split.
+Qed.
